@@ -99,7 +99,9 @@ def mk(c, tdim, rows=None, thr=None):
     for d in names:
         coords[d] = list(range(10, 10 + extra[d]))
     da = xr.DataArray(a, dims=names + [tdim], coords=coords)
-    return da.transpose(*[tdim if d == "T" else d for d in c["order"]])
+    da = da.transpose(*[tdim if d == "T" else d for d in c["order"]])
+    # a fresh contiguous array in the final dim order (bottleneck 1.6 misreads transposed views with size-1 dims)
+    return xr.DataArray(np.array(da.values, dtype=float, order="C", copy=True), dims=da.dims, coords={k: coords[k] for k in da.dims})
 
 
 def rows_of(da, c, tdim):
@@ -145,8 +147,8 @@ def mk_obs(c):
     shape = [c["extra"][d] for d in od]
     a = np.array(c["obs_vals"], dtype=float).reshape(shape)
     coords = {d: list(range(10, 10 + c["extra"][d])) for d in od}
-    da = xr.DataArray(a, dims=od, coords=coords)
-    return da.transpose(*c.get("obs_order", od))
+    da = xr.DataArray(a, dims=od, coords=coords).transpose(*c.get("obs_order", od))
+    return xr.DataArray(np.array(da.values, dtype=float, order="C", copy=True), dims=da.dims, coords={k: coords[k] for k in da.dims})
 
 
 def broadcast_rows(c, dims, vals):
